@@ -321,8 +321,37 @@ func fallibleCall(in ssa.Instruction) (*ssa.Call, ssa.Value) {
 		return nil, nil
 	}
 	e, kind := producerErr(call)
-	if kind == "" || kind == "errgroup.Wait" {
+	if kind == "errgroup.Wait" {
 		return nil, nil
+	}
+	if kind == "" {
+		// an in-package helper that pulls from a stream under the context and reports how that ended
+		// (drain(ctx, s): nil once s reached End, the error otherwise)
+		cal := staticCallee(&call.Call)
+		if cal == nil || cal.Blocks == nil || cal.Parent() != nil || call.Parent() == nil || rootFn(origin(cal)).Pkg != rootFn(call.Parent()).Pkg || !lastIsError(origin(cal).Signature) || ctxParam(origin(cal)) == nil {
+			return nil, nil
+		}
+		pulls := false
+		instrs(origin(cal), func(_ *ssa.BasicBlock, _ int, in2 ssa.Instruction) {
+			if c2, ok := in2.(*ssa.Call); ok {
+				if _, k2 := producerErr(c2); strings.HasPrefix(k2, "Stream.") {
+					pulls = true
+				}
+			}
+		})
+		if !pulls {
+			return nil, nil
+		}
+		n := origin(cal).Signature.Results().Len()
+		if n == 1 {
+			return call, call
+		}
+		for _, ref := range refsOf(call) {
+			if ex, ok := ref.(*ssa.Extract); ok && ex.Index == n-1 {
+				return call, ex
+			}
+		}
+		return call, nil
 	}
 	return call, e
 }
